@@ -37,7 +37,9 @@ CHECKS["C02"] = dict(
     text=("Theorems for all meshes: mass matrices (tria/tet, full/lumped) symmetric, stored entries > 0 on non-degenerate meshes, entries "
           "sum to total measure, x.B.y equals the closed form of the exact integral which equals the edge-midpoint quadrature (exact for "
           "quadratics) for triangles, lumped = diagonal of row sums; the stand-alone Solver.fem_tria_mass returns, entry by entry, "
-          "the matrix Solver(...) assembles on every mesh without a degenerate triangle (both routines are modelled separately)."),
+          "the matrix Solver(...) assembles on every mesh without a degenerate triangle (both routines are modelled separately); on "
+          "non-degenerate meshes the forms x.B.y (full and lumped, triangles and tetrahedra) are unchanged by any reordering of the elements and "
+          "by any order of the indices inside an element (MassInvarP)."),
     design="6/C02", technique="Coq proof (ring/field + assembly lemmas) + vm_compute correspondence at binary64")
 
 CHECKS["C09"] = dict(
